@@ -6,7 +6,7 @@ PROPS = "Props/C17"
 
 def specs_for(ctx, fam):
     quick = ctx.quick()
-    return repo_corpus(quick) + rand_specs(ctx, 5 if quick else 40, prefix="rg", verifdump=fam.bins.get("verifdump"))
+    return repo_corpus(quick) + rand_specs(ctx, 3 if quick else 40, prefix="rg", verifdump=fam.bins.get("verifdump"))
 
 
 def le32(tag):
@@ -69,6 +69,11 @@ def run(ctx):
         if len(set(onames)) != len(onames):
             fam.oracle_fail(u, f"C17:dup-name:{u.name}", "duplicate names in GetAllTLItems()", {"items": onames})
         items = {}
+        bytop = {x["tlName"]: x for x in ins if x.get("topLevel") and x["kind"] in ("struct", "union")}
+        for x in bytop.values():
+            if x["kind"] == "struct" or (x.get("hasTL2") and not x.get("isMaybe")):
+                if x["tlName"] not in onames:
+                    fam.oracle_fail(u, f"C17:missing:{u.name}:{x['tlName']}", "top-level type of the schema is not registered", {"name": x["tlName"]})
         for l, g in zip(lines, go):
             if not g.startswith("ok ") or l == "regcount":
                 if l.split(" ")[0] == "regname" and l.split(" ")[1] in onames:
@@ -88,6 +93,15 @@ def run(ctx):
                 fam.oracle_fail(u, sig, "by-name / by-tag lookups do not return the same item", {"op": l, "go": g})
             if (kv["fn"] != "none") != (kv["fun"] == "true") or (kv["facfn"] != "none") != (kv["fun"] == "true"):
                 fam.oracle_fail(u, sig, "IsFunction disagrees with CreateFunction", {"op": l, "go": g})
+            x = bytop.get(name)    # the schema's own statement about this item (kernel dump), independent of the Coq model
+            if x is None:
+                fam.oracle_fail(u, sig, "registered item is not a top-level type of the schema", {"op": l, "go": g})
+            else:
+                want_ann = "".join("1" if a in (x.get("annotations") or []) else "0" for a in anns) or "-"
+                want = (x["tag"], str(bool(x.get("isFunction"))).lower(), str(not x.get("originTL2")).lower(), str(bool(x.get("hasTL2"))).lower(), f"{want_ann}/{len(anns)}")
+                got = (tag, kv["fun"], kv["tl1"], kv["tl2"], kv["ann"])
+                if want != got:
+                    fam.oracle_fail(u, sig, f"item flags (tag, function, TL1, TL2, annotations) {got} differ from the schema's {want}", {"op": l, "go": g, "schema": want})
             if "!" in g or "?" in kv["ann"] or "unexpected" in g:
                 fam.oracle_fail(u, sig, "factory and meta disagree", {"op": l, "go": g})
         if sorted(items) != sorted(onames):
